@@ -9,7 +9,7 @@ import (
 var registry = map[string]core.Harness{
 	"C22": TXN{Prop: "C22"},
 	"C23": TXN{Prop: "C23"},
-	"C25": TXN{Prop: "C25"},
+	"C25": C25H{},
 	"C27": KL{},
 	"C24": CON{},
 	"C28": AI{},
